@@ -106,7 +106,7 @@ func (c *Checker) afterPure(line, op string, args []string, obs string) {
 	}
 	switch op {
 	case "epoch":
-		if obs == "epoch ok" && len(args) == 2 {
+		if obs == "epoch ok" && (len(args) == 2 || len(args) == 3) {
 			if e, err := strconv.ParseUint(args[1], 10, 64); err == nil {
 				for s := 0; s < c.w.NumShards(); s++ {
 					if args[0] == "*" || args[0] == strconv.Itoa(s) {
